@@ -10,7 +10,7 @@ from harness.gamma import NA, Palette
 from props import frames
 
 BOUNDARIES = ["lod", "json", "pandas", "arrow"]
-KIND_PALS = {"bool": gamma.BOOL, "int": gamma.Palette("int/conv", "int", [-3, 0, 7, 2**53 + 1], has_na=False, full_dtype=int),
+KIND_PALS = {"bool": gamma.BOOL, "int": gamma.Palette("int/conv", "int", [-3, 2**53 + 1, 2**53 + 3, 2**62], has_na=False, full_dtype=int),
              "float": gamma.FLOAT_INF, "str": gamma.STR_SHORT, "str_long": gamma.STR_LONG, "date": gamma.DATE, "datetime": gamma.DATETIME, "datetime_ns": gamma.DATETIME_NS}
 DTKIND = {"b": "bool", "i": "int", "u": "int", "f": "float", "T": "str", "U": "str", "M": "date", "O": "obj"}
 
@@ -35,11 +35,12 @@ def is_sentinel(v):
     return False
 
 
-def inspect(b, d, cols):
-    """Observe the intermediate object with the foreign library's own API."""
+def inspect(b, d, cols, inter=None):
+    """Observe the intermediate object with the foreign library's own API (inter given: observe that object again)."""
     import pandas as pd
     if b in ("lod", "json"):
-        inter = d.to_list_of_dicts() if b == "lod" else json.loads(d.to_json())
+        if inter is None:
+            inter = d.to_list_of_dicts() if b == "lod" else json.loads(d.to_json())
         recs = [dict(x) for x in inter]
         fields = list(recs[0].keys()) if recs else []
         same = all(list(r.keys()) == fields for r in recs)
@@ -47,11 +48,11 @@ def inspect(b, d, cols):
         sent = {c: [is_sentinel(r.get(c)) for r in recs] for c in cols}
         return {"nrec": len(recs), "fields": fields if same else ["RAGGED"], "null": null, "sentinel": sent}, inter
     if b == "pandas":
-        p = d.to_pandas()
+        p = d.to_pandas() if inter is None else inter
         null = {c: [bool(x) for x in pd.isna(p[c]).tolist()] for c in cols if c in p}
         sent = {c: [(not n) and is_sentinel(v) for v, n in zip(p[c].tolist(), null[c])] for c in cols if c in p}
         return {"nrec": int(p.shape[0]), "fields": [str(c) for c in p.columns], "null": null, "sentinel": sent}, p
-    t = d.to_arrow()
+    t = d.to_arrow() if inter is None else inter
     null = {c: t.column(c).is_null().to_pylist() for c in cols if c in t.column_names}
     sent = {c: [(not n) and is_sentinel(v) for v, n in zip(t.column(c).to_pylist(), null[c])] for c in cols if c in t.column_names}
     return {"nrec": t.num_rows, "fields": list(t.column_names), "null": null, "sentinel": sent}, t
@@ -78,9 +79,11 @@ def execute(fr, kinds, b):
         rec["kinds"] = {c: kind_of(np.asarray(d[c])) for c in fr["cols"]}      # the frame's own kinds (int+NA is float, bool+NA object)
         rec["inter"], inter = inspect(b, d, fr["cols"])
         if b == "json":
-            d2 = di.DataFrame.from_json(d.to_json())
+            # the JSON text, or (every other time) the already parsed records, which from_json accepts as well
+            d2 = di.DataFrame.from_json(d.to_json()) if len(fr["cell"][fr["cols"][0]]) % 2 else di.DataFrame.from_json(inter)
         else:
             d2 = back_from(b, inter)
+        rec["kept"] = json.dumps(inspect(b, d, fr["cols"], inter)[0], sort_keys=True, default=str) == json.dumps(rec["inter"], sort_keys=True, default=str)
         obs_pals = dict(pals)
         if b == "json":
             for c in fr["cols"]:      # dates cross JSON as ISO text (free point): read them back as such
